@@ -96,6 +96,10 @@ if d.get('manual_impls') is not None and d.get('manual_impls') != ['PartialEq<S>
 hc = d.get('hook_calls')
 if hc is not None and hc != {'finish_in_build': 1, 'finish_elsewhere': 0, 'from_str_in_parse': 1, 'build_calls_in_parse': 1}:
     warn(f"calls of the user hooks in the source are {hc}; the model has one finish() call in build(), one T::from_str and one build() call in the parser", ['C14'])
+if 'search_form' in d and d.get('search_form') != 'self.qualifiers.binary_search_by(|(qk, _qv)| qk.partial_cmp(&key).unwrap())':
+    # recorded only (affects nothing by itself): any search that returns the index / insertion point on a sorted list is the model's scan;
+    # theorem C11_search_is_binary_search speaks about the binary_search_by form, the C11 correspondence decides for any other
+    warn(f"Qualifiers::search is no longer the recognised binary_search_by call ({d.get('search_form')}); C11_search_is_binary_search describes the recorded form only", [])
 if d.get('state_sites'):
     # the model is a pure function of its arguments; state that survives a call breaks the tie for everything anchored in that file
     import os as _os
